@@ -200,9 +200,67 @@ def sn_error(g):
     return [f"fn {z}(a) {{ return a }}", f"{p}({z}(1, 2))"]
 
 
+def _mod_use(r, which):
+    """an expression that needs a module the VM does NOT auto-register (reload must find it again from the layouts)"""
+    if which == 0:
+        return ["needs std.sys"], 'sys.platform() + ":" + sys.arch()'
+    return ["needs std.bytes"], None
+
+
+def sn_mod_top(g):
+    """non-auto-registered module used at script level only"""
+    r, p = g.r, g.pr
+    b = g.n("tb")
+    return ["needs std.sys", f'{p}(sys.platform() + "/" + sys.arch())', "needs std.bytes",
+            f'let {b} = bytes.from_string("{S(r)}")', f"{p}(bytes.size({b}))", f"bytes.free({b})"]
+
+
+def sn_mod_d1(g):
+    """... used only inside a top-level function (nesting depth 1)"""
+    r, p = g.r, g.pr
+    f, h = g.n("sz"), g.n("plat")
+    return ["needs std.bytes", "needs std.sys",
+            f"fn {f}(s: string) -> int {{", "  let buf = bytes.from_string(s)", "  let n = bytes.size(buf)", "  bytes.free(buf)", "  return n", "}",
+            f"fn {h}() {{ return sys.arch() }}", f'{p}({f}("{S(r)}") + {r.randint(1, 9)})', f"{p}({h}())"]
+
+
+def sn_mod_d2(g):
+    """... used only inside a lambda returned by a function (depth 2)"""
+    r, p = g.r, g.pr
+    mk, c, pl = g.n("mksz"), g.n("szr"), g.n("mkpl")
+    return ["needs std.bytes", "needs std.sys",
+            f"fn {mk}(extra: int) {{", "  return fn(s: string) -> int {", "    let buf = bytes.from_string(s)", "    let n = bytes.size(buf)",
+            "    bytes.free(buf)", "    return n + extra", "  }", "}",
+            f"fn {pl}() {{ return fn() {{ return sys.platform() }} }}",
+            f"let {c} = {mk}({r.randint(10, 99)})", f'{p}({c}("hello"))', f'{p}({c}("{S(r)}"))', f"let p{pl} = {pl}()", f"{p}(p{pl}())"]
+
+
+def sn_mod_d3(g):
+    """... used only at depth 3 (lambda inside function inside function)"""
+    r, p = g.r, g.pr
+    o, c = g.n("outer3"), g.n("deep")
+    return ["needs std.bytes", "needs std.sys",
+            f"fn {o}(k: int) {{", "  fn mid(j: int) {", "    return fn(s: string) -> int {", "      let buf = bytes.from_string(s)",
+            "      let n = bytes.size(buf)", "      bytes.free(buf)", "      return n * j + k", "    }", "  }", f"  return mid({r.randint(2, 5)})", "}",
+            f"let {c} = {o}({r.randint(1, 9)})", f'{p}({c}("abc"))',
+            f"fn a{o}() {{ fn b() {{ return fn() {{ return sys.arch() }} }} return b() }}", f"let q{o} = a{o}()", f"{p}(q{o}())"]
+
+
 SNIPPETS = [sn_arith, sn_float, sn_string, sn_calls_loop, sn_calls_toplevel, sn_closure, sn_closure2, sn_recursion, sn_loops,
             sn_arrays, sn_bitwise, sn_logic, sn_nogc, sn_globals, sn_higher, sn_nested_fn, sn_mutparam, sn_ifelse, sn_bigint,
-            sn_inline, sn_typed, sn_upval_call]
+            sn_inline, sn_typed, sn_upval_call, sn_mod_top, sn_mod_d1, sn_mod_d2, sn_mod_d3]
+
+
+def hoist(lines):
+    """`needs` statements must come first: move them up, once each"""
+    needs, rest = [], []
+    for l in lines:
+        if l.startswith("needs "):
+            if l not in needs:
+                needs.append(l)
+        else:
+            rest.append(l)
+    return "\n".join(needs + rest) + "\n"
 
 
 def gen_program(seed, idx):
@@ -235,7 +293,7 @@ def gen_program(seed, idx):
     if r.randint(0, 7) == 0:
         body += sn_error(g)
     tail = r.choice(["", "42", '"done"', "1.5", "null", "true"])
-    return "\n".join(needs + rest + body + ([tail] if tail else [])) + "\n"
+    return hoist(needs + rest + body + ([tail] if tail else []))
 
 
 def snippet_programs():
@@ -244,7 +302,7 @@ def snippet_programs():
     for i, s in enumerate(SNIPPETS + [sn_error]):
         r = random.Random(7 + i)
         g = G(r, "io.println")
-        out.append("needs std.io\n" + "\n".join(s(g)) + "\n")
+        out.append(hoist(["needs std.io"] + s(g)))
     return out
 
 
